@@ -58,4 +58,20 @@ theorem gen_resolveLenient_eq (db : Db) (r : Ref) (exp : Option String) :
           by_cases hc : c ∈ o.classes <;>
             simp [List.forIn_cons, findIn, hd, ho, py_rt, typed, Obj.isInst, Py.call, errOfLink, hc] <;> rfl
 
+set_option linter.unusedSimpArgs false in
+/-- `resolve_snref`: the candidate list (a list comprehension with a condition), the three `odxraise` branches (the last one
+    behind a short-circuit `and` whose second operand indexes the list) and `return candidates[0]` -/
+theorem gen_resolveSnref_eq (name : String) (items : List Obj) (exp : Option String) :
+    Gen.resolveSnrefE name items exp = Py.call errOfLink (resolveSnref name items exp true) := by
+  unfold Gen.resolveSnrefE resolveSnref
+  dsimp only
+  rcases hf : items.filter (fun x => decide (x.name = name)) with _ | ⟨c, _ | ⟨c2, rest⟩⟩
+  · simp [hf, Py.call, errOfLink] <;> rfl
+  · cases exp with
+    | none => simp [hf, py_rt, Py.getItem, typed, Obj.isInst, Py.call] <;> rfl
+    | some t =>
+      by_cases hc : t ∈ c.classes <;>
+        simp [hf, py_rt, Py.getItem, typed, Obj.isInst, Py.call, errOfLink, hc] <;> rfl
+  · simp [hf, Py.call, errOfLink] <;> rfl
+
 end OdxVerif.OdxLink
